@@ -164,12 +164,12 @@ func (w *rwalk) throw() {
 }
 
 // genRandom produces one behaviour.  maxSC / maxFrames: script contexts / frames at once; heavy: large arrays and
-// static slots; fill: the program ends by filling the VM up to the item limit (in chunks of 1, 4 or 16 items)
-func genRandom(r *rand.Rand, length, maxSC, maxFrames int, heavy, fill bool) []MStep {
+// static slots; fill > 0: the program ends by filling the VM up to the item limit in chunks of `fill` items
+func genRandom(r *rand.Rand, length, maxSC, maxFrames int, heavy bool, fill int) []MStep {
 	return genRandomKinds(r, length, maxSC, maxFrames, heavy, fill, []int{kRV1, kRV1, kRV0, kCC0, kAll, kDyn, kDyn})
 }
 
-func genRandomKinds(r *rand.Rand, length, maxSC, maxFrames int, heavy, fill bool, kinds []int) []MStep {
+func genRandomKinds(r *rand.Rand, length, maxSC, maxFrames int, heavy bool, fill int, kinds []int) []MStep {
 	w := &rwalk{r: r}
 	w.scs = []*asc{{own: true, kind: -1, frames: []aframe{{}}}}
 	w.steps = []MStep{{Op: "init", St: "run"}}
@@ -278,8 +278,8 @@ func genRandomKinds(r *rand.Rand, length, maxSC, maxFrames int, heavy, fill bool
 		w.maxFr = max(w.maxFr, w.nframes())
 	}
 	if !w.ended {
-		if fill {
-			w.emit("fill", []int{1, 4, 4, 16}[r.Intn(4)], 0, "")
+		if fill > 0 {
+			w.emit("fill", fill, 0, "")
 		} else if r.Intn(3) != 0 {
 			for !w.ended { // wind down properly: every script context returns what its caller expects
 				w.ret(true)
